@@ -175,13 +175,20 @@ class Session:
         now = CLOCK.us
         before = set(self.held)
         await self.broker.maintenance()
-        back = []
+        back, premature = [], []
         for mid in before:
             if not any(p == "processing" for p in self.places(mid)):
                 back.append(mid)
-                self.held.pop(mid, None)
-                self.returned.add(mid)
-        self.rec({"op": "maintenance", "now": now, "returned": back}, [A("redis.maintenance"), now], snapshot(self.srv))
+                took = max((d["at"] for d in self.deliveries if d["id"] == mid), default=now)
+                tmo = vtime.td_us(self.msgs[mid]["params"].execution_timeout)
+                if now - took + S >= tmo:
+                    self.held.pop(mid, None)       # timed out: the holder's claim has lapsed
+                    self.returned.add(mid)
+                else:
+                    premature.append(mid)          # given back although its holder's time has not run out: still held
+        self.rec({"op": "maintenance", "now": now, "returned": back, "premature": premature}, [A("redis.maintenance"), now],
+                 snapshot(self.srv))
+        return back
 
 
 # ------------------------------------------------------------------------------ generators
@@ -239,7 +246,10 @@ async def random_session(rng: Rng, n_ops: int, profile: str, box: list | None = 
         elif r < 0.95:
             await s.advance(rng.choice([1, 100_000, 400_000, S, S + 300_000, 3 * S, 10 * S, 3600 * S, 86400 * S]))
         else:
-            await s.maintenance()
+            if await s.maintenance():
+                # whatever maintenance gave back is deliverable again: let every consumer look
+                for c in range(ncons):
+                    await s.consume(c, ORDERS[0])
     if profile in ("ttl", "mixed"):
         await drain_dead(s)
     return s
